@@ -1,4 +1,4 @@
-\* generation: every case of the full small domain, with the model's prediction, printed once
+\* generation: every case of the exhaustive configuration, with the model's prediction, printed once
 SPECIFICATION Spec
 CONSTANTS
   MaxList = 4
